@@ -692,10 +692,17 @@ class Interp:
             return
         ref = np.linalg.norm(a.model - b.model)
         sc = np.linalg.norm(a.model) + np.linalg.norm(b.model)
+        ca, cb = getattr(a.obj, "coeff", 1), getattr(b.obj, "coeff", 1)
         ok, v = self.guard("observe.distance", a.obj.distance, b.obj)
         if ok:
             # distance is computed as sqrt(l1+l2-2Re<a|b>): absolute accuracy ~ sqrt(eps)*scale
-            self._obs("distance", v, ref, sc, rel=1e-7)
+            if np.allclose(ca, cb) and not np.isclose(abs(ca), 1.0) and abs(v * abs(ca) - ref) <= self.tol(sc, 1e-7) \
+                    and abs(v - ref) > self.tol(sc, 1e-7):
+                # finding F27: a common prefactor c != 1 is ignored (distance of the tensor parts is returned)
+                self.r.fail("observe.distance.common_prefactor_ignored",
+                            f"distance={v} but |a-b|={ref} for two states with the same prefactor {ca} (= {abs(ca)}*{v}) trace={self.trace[-6:]}")
+            else:
+                self._obs("distance", v, ref, sc, rel=1e-7)
             self.compare("observe.distance.operand_a", a, "a after distance")
             self.compare("observe.distance.operand_b", b, "b after distance")
 
